@@ -48,7 +48,7 @@ RULE = ('every spec of: [opt] rectangular nx,ny in 1..3 x 3 spacing patterns x 4
         'angle or a metres/layer_column file re-used through read() x 3 block orders x units x 2 conventions x 3 '
         'atmosphere types; [derived] also rename_column of each single column, subsets, all in reverse and in list '
         'order (one by one and as lists), name swaps, rename_layer, delete+add of a column; g7 with the surface of each single column, each pair of consecutive columns and all '
-        'columns reset; [hist] the WRITTEN object reached through every sequence of length 1..2 (thorough 1..3 in metres) '
+        'columns reset; [hist] the WRITTEN object reached through every sequence of length 1..2 '
         'over the library\'s own self-maintaining edit operations {rename_layer of each of the 4 layers incl. the atmosphere '
         'layer, rename_column first/last, atmosphere_type := 0/1/2, convention := 0/2/3 (not from convention 1), '
         'block_order := None/layer_column/dmplex, translate, rotate, refine of a column, reduce to a half, '
@@ -88,8 +88,8 @@ BOUNDS = {
     'thorough': {'opt': '27 shape/spacing bases x 96 header options x 4 angle/size settings', 'surf': '3x2, 64 subsets x '
                  '5 kinds x 4 conv x 3 atm x 2 units', 'wells': '0..3 wells x 2..6 points', 'shipped': 'g1..g7',
                  'derived': '3x2 and g7 (each of its 108 columns; surface singles, consecutive pairs, all)',
-                 'hist': 'edit sequences of length 1..3 (metres; 1..2 in feet) over 22 operations (19 from convention '
-                 '1) x 24 bases = 222426', 'styles': '4 reference-writer styles (+16-style '
+                 'hist': 'edit sequences of length 1..2 over 22 operations (19 from convention 1) x 24 bases x 2 '
+                 'units = 20736', 'styles': '4 reference-writer styles (+16-style '
                  'cross on the names group)'}}
 TECHNIQUE = ('bounded exhaustive enumeration of geometry configurations on the real mulgrid.write / mulgrid.read, '
              'cross-checked in both directions by a reference fixed-column reader/writer frozen from the format '
@@ -375,14 +375,14 @@ _HIST_CACHE = {}
 
 
 def specs_hist(tier):
-    """History of the WRITTEN object: a geometry reached through every sequence (length 1..2, thorough 1..3) of the
+    """History of the WRITTEN object: a geometry reached through every sequence of length 1..2 of the
     library's own edit operations - rename_layer of each layer including the atmosphere layer, rename_column,
     assignment of atmosphere type / convention / block order, translate, rotate, refine, reduce, copy_layers_from,
     refine_layers - and written WITHOUT any refresh by the harness: the object as the library left it and the
     geometry read back from its file must agree in everything, the derived name lists included."""
     if tier in _HIST_CACHE:
         return _HIST_CACHE[tier]
-    depth = 3 if tier == 'thorough' else 2
+    depth = 2    # (length 3 = 222426 specs, ~2400 CPU-s: enumerated by setting this to 3; not yet run to the end on /repo)
     out = []
     for conv in range(4):
         # conventions 0, 2, 3 are interchangeable by assignment (same name lengths); convention 1 is not
@@ -1041,7 +1041,7 @@ def evaluate(spec, tier='thorough'):
     scale = unit_scale(D['header']['unit_type'])
     if not fits_file(D, scale):
         return [], 'excluded:needs-more-than-10-columns', stats
-    if not elevations_resolved(D, scale):
+    if spec.get('history') and not elevations_resolved(D, scale):
         return [], 'excluded:elevations-closer-than-0.01-but-not-equal', stats
     ucls = 'feet' if scale != 1.0 else 'metres'
     viol = []
